@@ -383,7 +383,6 @@ theorem gnext_spec (g : GState) (optstr : List Nat) (args : List (List Nat)) (h 
                 show g.runeidx + 1 + 1 < _
                 omega
               · rw [if_neg hm]; exact Or.inl rfl
-            simp only
             split
             · exact ⟨_, _, rfl, hinv⟩
             · exact ⟨_, _, rfl, hinv⟩
